@@ -1,5 +1,7 @@
 import SynKitModel.Petri
 import SynKitProofs.PetriLemmas
+import SynKitProofs.PetriLevel
+import Mathlib.Data.Set.Card
 /-!
 # C20 — siphons, traps and pathway realizability match their Petri-net definitions
 
@@ -111,15 +113,88 @@ no queue entry was skipped because `len(seq) > max_depth` — the two ghost flag
 `notFound`), then no firing sequence at all leads from `M0` to `MT` on the extended net, i.e. the
 pathway has no ordering.  Contrapositive: a pathway that has an ordering is reported realizable
 unless a bound was touched.
-Missing for the full clause (DESIGN §5a reading): that the bounds are NOT touched whenever a firing
-sequence of length ≤ `max_depth` exists and at most `max_states` markings are reachable (needs the
-breadth-first level invariant: queue ordered by depth, every marking visited once at its
-distance).  The harness checks that full clause on every generated case against an exhaustive
-reachability search. -/
+This theorem alone does not say when the bounds are NOT touched; that is the breadth-first level
+invariant, proved below: `bfs_notFound_within_states` and the full clause
+`bfs_complete_within_bounds` (DESIGN §5a reading). -/
 theorem bfs_complete_partial (P : Pathway) (maxStates maxDepth : Nat)
     (h : isRealizable P maxStates maxDepth = .notFound false false) :
     ∀ seq : List String, validCertificate P seq = false :=
   isRealizable_exhausted P maxStates maxDepth h
+
+/-- **C20, completeness within bounds — the level invariant.**  "Reachable" is over the extended
+net (species, `__ext__`, `__target__` places), from `M0`, by firing sequences as the search fires
+them (`Reach`, `startT`).  If the reachable markings all lie in a list `R` of at most `max_states`
+markings (i.e. the number of distinct reachable markings is `≤ max_states`), then whenever
+`is_realizable` answers "not found":
+* the `states > max_states` break was NOT taken (first ghost flag is `false`), and
+* no firing sequence of length `≤ max_depth + 1` leads from `M0` to `MT`.
+The bound is `max_depth + 1`, not `max_depth`: the code expands every popped entry with
+`len(seq) <= max_depth`, so certificates of length `max_depth + 1` are still found. -/
+theorem bfs_notFound_within_states (P : Pathway) (maxStates maxDepth : Nat) (R : List Tuple)
+    (hR : ∀ m, Reach (buildNet P) (startT P) m → m ∈ R) (hcard : R.length ≤ maxStates) (a b : Bool)
+    (h : isRealizable P maxStates maxDepth = .notFound a b) :
+    a = false ∧ ∀ seq : List String, seq.length ≤ maxDepth + 1 → validCertificate P seq = false :=
+  isRealizable_notFound_level P maxStates maxDepth R hR hcard a b h
+
+/-- **C20, last clause, in full (DESIGN §5a reading).**  If the pathway has an ordering within the
+search bounds — a firing sequence `seq` that, replayed on the extended net from `M0`, is enabled at
+every step and ends in `MT` (`validCertificate`; by `certificate_check_sound` it fires every
+reaction `flow(e)` times, never goes negative and returns every species to 0), of length
+`≤ max_depth + 1`, and the number of distinct markings reachable from `M0` is `≤ max_states` (they
+all lie in a list `R` with `len(R) ≤ max_states`) — then `is_realizable(max_states, max_depth)`
+answers `(True, cert)` and `cert` is itself a valid certificate.  A sequence of length
+`≤ max_depth` is in particular of length `≤ max_depth + 1`, so the §5a reading is implied
+(`bfs_complete_within_bounds_5a`).  (`P.edges ≠ []`: with no edges `build_petri_net_from_flow`
+raises `RuntimeError` before any search; see `bfs_never_unrealizable_within_bounds`.) -/
+theorem bfs_complete_within_bounds (P : Pathway) (hedges : P.edges.isEmpty = false)
+    (maxStates maxDepth : Nat) (seq : List String) (hseq : validCertificate P seq = true)
+    (hlen : seq.length ≤ maxDepth + 1) (R : List Tuple)
+    (hR : ∀ m, Reach (buildNet P) (startT P) m → m ∈ R) (hcard : R.length ≤ maxStates) :
+    ∃ cert : List String, isRealizable P maxStates maxDepth = .found cert ∧
+      validCertificate P cert = true := by
+  cases hres : isRealizable P maxStates maxDepth with
+  | found cert => exact ⟨cert, rfl, isRealizable_sound P maxStates maxDepth cert hres⟩
+  | notFound a b =>
+    have := (isRealizable_notFound_level P maxStates maxDepth R hR hcard a b hres).2 seq hlen
+    rw [hseq] at this; exact absurd this (by simp)
+  | noEdges => exact absurd hres (isRealizable_ne_noEdges P maxStates maxDepth hedges)
+  | fuelOut => exact absurd hres (isRealizable_ne_fuelOut P maxStates maxDepth)
+
+/-- The clause exactly as read in DESIGN §5a: a firing sequence of length `≤ max_depth` exists and
+the number of reachable markings is `≤ max_states` ⇒ the answer is `(True, cert)`. -/
+theorem bfs_complete_within_bounds_5a (P : Pathway) (hedges : P.edges.isEmpty = false)
+    (maxStates maxDepth : Nat) (seq : List String) (hseq : validCertificate P seq = true)
+    (hlen : seq.length ≤ maxDepth) (R : List Tuple)
+    (hR : ∀ m, Reach (buildNet P) (startT P) m → m ∈ R) (hcard : R.length ≤ maxStates) :
+    ∃ cert : List String, isRealizable P maxStates maxDepth = .found cert ∧
+      validCertificate P cert = true :=
+  bfs_complete_within_bounds P hedges maxStates maxDepth seq hseq (Nat.le_succ_of_le hlen) R hR hcard
+
+/-- The clause as worded ("no pathway that has such an ordering within the search bounds is
+reported unrealizable"), for every input including the edgeless one: under the hypotheses of
+`bfs_complete_within_bounds` the answer is never "not found". -/
+theorem bfs_never_unrealizable_within_bounds (P : Pathway) (maxStates maxDepth : Nat)
+    (seq : List String) (hseq : validCertificate P seq = true) (hlen : seq.length ≤ maxDepth + 1)
+    (R : List Tuple) (hR : ∀ m, Reach (buildNet P) (startT P) m → m ∈ R)
+    (hcard : R.length ≤ maxStates) (a b : Bool) :
+    isRealizable P maxStates maxDepth ≠ .notFound a b := by
+  intro hres
+  have := (isRealizable_notFound_level P maxStates maxDepth R hR hcard a b hres).2 seq hlen
+  rw [hseq] at this; exact absurd this (by simp)
+
+/-- The same full clause with the number of reachable markings counted as the cardinality of the
+set of reachable markings (finite, `Set.ncard ≤ max_states`). -/
+theorem bfs_complete_within_bounds_card (P : Pathway) (hedges : P.edges.isEmpty = false)
+    (maxStates maxDepth : Nat) (seq : List String) (hseq : validCertificate P seq = true)
+    (hlen : seq.length ≤ maxDepth + 1)
+    (hfin : {m | Reach (buildNet P) (startT P) m}.Finite)
+    (hcard : {m | Reach (buildNet P) (startT P) m}.ncard ≤ maxStates) :
+    ∃ cert : List String, isRealizable P maxStates maxDepth = .found cert ∧
+      validCertificate P cert = true := by
+  refine bfs_complete_within_bounds P hedges maxStates maxDepth seq hseq hlen hfin.toFinset.toList
+    (fun m hm => ?_) ?_
+  · simpa using hm
+  · rw [Finset.length_toList, ← Set.ncard_eq_toFinset_card _ hfin]; exact hcard
 
 /-! ### non-vacuity and the defect witness (evaluations are in `SynKitModel/Petri.lean`) -/
 
@@ -143,5 +218,21 @@ example : validCertificate exPath ["r_2", "r_1", "r_3"] = false := exPath_badOrd
 /-- `bfs_complete_partial` has a satisfiable hypothesis: firing only `A → B` is conclusively impossible. -/
 example : ∀ seq, validCertificate { exPath with flow := [("r_2", 1)] } seq = false :=
   bfs_complete_partial _ 1000 100 exPath_unrealizable
+
+/-- Hypotheses of `bfs_complete_within_bounds` hold on `exPath` (reachable markings: `exPathReach`,
+four of them, closed under firing by evaluation) with the TIGHT bounds
+`max_states = 4` (four reachable markings) and `max_depth = 2` (the only ordering has length
+`3 = max_depth + 1`), and the conclusion is the observed answer. -/
+example : ∃ cert, isRealizable exPath 4 2 = .found cert ∧ validCertificate exPath cert = true :=
+  bfs_complete_within_bounds exPath (by decide) 4 2 ["r_1", "r_2", "r_3"] (by decide) (by decide)
+    exPathReach (reach_subset_of_closedUnderB _ _ _ exPathReach_closed) (by decide)
+example : isRealizable exPath 4 2 = .found ["r_1", "r_2", "r_3"] := by decide
+/-- One less in depth and the (only) ordering is out of the bounds: the search gives up, having
+skipped an entry for depth — the bound `max_depth + 1` of the theorem is the one the code has. -/
+example : isRealizable exPath 4 1 = .notFound false true := by decide
+/-- `bfs_notFound_within_states` has satisfiable hypotheses with a "not found" answer. -/
+example : ∀ seq : List String, seq.length ≤ 2 → validCertificate exPath seq = false :=
+  (bfs_notFound_within_states exPath 4 1 exPathReach (reach_subset_of_closedUnderB _ _ _ exPathReach_closed)
+    (by decide) false true (by decide)).2
 
 end SynKit.Petri
